@@ -255,6 +255,13 @@ def cmd_check(prop: str, tier: str) -> int:
     cov["harness_problems"] = harness_problems
     cov["wall_s_total"] = round(wall, 1)
     kernel.write_evidence(prop, tier, seed, spec["level"], cov, wall, n_new, spec["assumptions"])
+    if exit_code == 0 and not harness_problems:
+        complaints = spec["sanity"](cov.get("counters", {})) if spec.get("sanity") else []
+        if complaints:
+            for c in complaints:
+                log(f"HARNESS: workload did not exercise the property: {c}")
+            log("exit 2 (no verdict): a run that never reaches the statement's subject must not count as 'held'")
+            return 2
     if exit_code == 0 and harness_problems:
         log(f"HARNESS: {harness_problems} runs ended in harness errors/timeouts — no verdict for those; exit 2")
         return 2
